@@ -149,8 +149,14 @@ func c18GenArchive(t *rapid.T) ([]byte, string) {
 			"BMW/readme.txt", "BM", "ID3v2-tags.md", "II*\x00.tif", "MM\x00*", "GIF89a.txt", "fLaC.notes", "MThd", "FORM", ".snd", "8BPS.psd", "%PDF-notes", "MZ.exe", "OggS", "RIFF", "xar!", "BZh91", "SIMPLE", "wOFF", "Rar!", "070707", "#!AMR", "MAC ", "MPCK", "FLV", "CWS", "icns", "PAR1", "d8:announce", "ftyp", "\x00\x00\x01\x00", "wOF2", "OTTO", "ttcf", "LZIP", "MSCF", "TZif",
 			// names with all kinds of extensions: the member name never decides
 			"appliance.ovf", "disk.ova", "box.ovf", "image.vmdk", "backup.tar", "a.tar.gz", "doc.xml", "data.json", "page.html", "lib.so", "x.class", "Dockerfile", "manifest.mf", "layer.tar", "index.docx", "book.epub", "mimetype"}).Draw(t, "name")
+		shaped := rapid.IntRange(0, 11).Draw(t, "shaped") == 0
+		if shaped {
+			name = c18ShapedName(t)
+		}
 		body := rapid.SliceOfN(rapid.Byte(), 0, 60).Draw(t, "body")
-		if rapid.IntRange(0, 3).Draw(t, "magicbody") == 0 {
+		if shaped && rapid.Bool().Draw(t, "brandbody") {
+			body = []byte(rapid.SampledFrom([]string{"jp2 ", "jpx jp2 ", "\x00\x00\x00\x0cjP  \r\n\x87\n", "jpm jp2 jpx "}).Draw(t, "bb"))
+		} else if rapid.IntRange(0, 3).Draw(t, "magicbody") == 0 {
 			// member CONTENT that looks like another format; only the header block decides
 			body = []byte(rapid.SampledFrom([]string{"%PDF-1.4\n%\xe2\xe3\xcf\xd3\n1 0 obj", "PK\x03\x04\x14\x00", "GIF89a\x01\x00", "\x89PNG\r\n\x1a\n", "MZ\x90\x00", "\x7fELF\x02\x01\x01", "%!PS-Adobe-3.0", "<?xml version=\"1.0\"?><svg/>", "{\"a\":1}", "8BPS\x00\x01", "OggS\x00\x02", "/* XPM */", "7z\xbc\xaf\x27\x1c"}).Draw(t, "mb"))
 		} else if rapid.IntRange(0, 3).Draw(t, "dictbody") == 0 {
@@ -186,6 +192,9 @@ func c18GenArchive(t *rapid.T) ([]byte, string) {
 			h.Typeflag, h.Size, body = atar.TypeFifo, 0, nil
 		default:
 			h.Typeflag = atar.TypeReg
+		}
+		if shaped && name[0] == '0' {
+			format = "gnu" // 8-bit name bytes
 		}
 		if rapid.IntRange(0, 9).Draw(t, "highbytes") == 0 {
 			// legacy 8-bit names (GNU format stores them as they are): every string field full
@@ -233,6 +242,24 @@ func c18GenArchive(t *rapid.T) ([]byte, string) {
 	return buf.Bytes(), format
 }
 
+// c18ShapedNames: member names that come CLOSE to signatures with computed offsets. A DER
+// SEQUENCE header ('0', length byte 0x80|n, n length bytes) followed by the PKCS#7 signedData
+// OID is a signature only for n <= 4; a JPEG 2000 signature box needs "jP  " at offset 4 AND
+// the brand at offset 20 - a brand anywhere else does not count.
+func c18ShapedName(t *rapid.T) string {
+	oid := "\x06\x09\x2a\x86\x48\x86\xf7\x0d\x01\x07\x02"
+	if rapid.Bool().Draw(t, "der") {
+		n := rapid.SampledFrom([]int{5, 6, 8, 16, 40, 70, 88}).Draw(t, "derlen")
+		return "0" + string([]byte{0x80 | byte(n)}) + strings.Repeat("\x01", n) + oid
+	}
+	sig := rapid.SampledFrom([]string{"jP  ", "jP2 "}).Draw(t, "jpsig")
+	brand := rapid.SampledFrom([]string{"jp2 ", "jpx ", "jpm "}).Draw(t, "brand")
+	at := rapid.SampledFrom([]int{24, 28, 32, 44, 64, 92}).Draw(t, "brandat")
+	name := []byte("file" + sig + strings.Repeat("x", 92))
+	copy(name[at:], brand)
+	return string(name[:at+4+rapid.IntRange(0, 3).Draw(t, "jptail")])
+}
+
 func c18MagicName(a []byte) bool {
 	for _, p := range []string{"BM", "ID3", "II*", "MM\x00*", "GIF8", "fLaC", "MThd", "FORM", ".snd", "8BPS", "%PDF-", "MZ", "OggS", "RIFF", "xar!", "BZh", "SIMPLE", "wOF", "Rar!", "0707", "#!AMR", "MAC ", "MPCK", "FLV", "CWS", "icns", "PAR1", "d8:announce", "\x00\x00\x01\x00", "OTTO", "ttcf", "LZIP", "MSCF", "TZif", "././@", "PaxHeader"} {
 		if bytes.HasPrefix(a, []byte(p)) {
@@ -242,8 +269,45 @@ func c18MagicName(a []byte) bool {
 	return false
 }
 
+// c18Respell rewrites the checksum field of the first header block in another spelling that
+// conforming writers use (the VALUE stays the checksum): 6 digits NUL SP (POSIX), 7 digits NUL
+// (GNU tar, star), 6 digits SP NUL, SP 6 digits NUL, 7 digits SP, 6 digits NUL NUL.
+func c18Respell(a []byte, style int) []byte {
+	if len(a) < 512 || style == 0 {
+		return a
+	}
+	sum := 0
+	for i := 0; i < 512; i++ {
+		if i >= 148 && i < 156 {
+			sum += ' '
+		} else {
+			sum += int(a[i])
+		}
+	}
+	var f string
+	switch style {
+	case 1:
+		f = fmt.Sprintf("%07o\x00", sum)
+	case 2:
+		f = fmt.Sprintf("%06o \x00", sum)
+	case 3:
+		f = fmt.Sprintf(" %06o\x00", sum)
+	case 4:
+		f = fmt.Sprintf("%07o ", sum)
+	default:
+		f = fmt.Sprintf("%06o\x00\x00", sum)
+	}
+	if len(f) != 8 {
+		return a
+	}
+	out := append([]byte(nil), a...)
+	copy(out[148:], f)
+	return out
+}
+
 func c18Gen(t *rapid.T) c18Case {
 	a, format := c18GenArchive(t)
+	a = c18Respell(a, rapid.SampledFrom([]int{0, 0, 0, 1, 2, 3, 4, 5}).Draw(t, "chkstyle"))
 	c := c18Case{Archive: a, Format: format, MagicName: c18MagicName(a)}
 	if len(a) > 3072 {
 		c.Archive = a[:3072]
